@@ -441,6 +441,10 @@ def _run_case(idx, rng, tier, case, wd, src):
             cause = 'after-ordering-violation' if len(viol) > nviol_before else 'ordering-respected'
             if failed and set(failed) <= affected:
                 cause = UNTRACKED
+            if cause == 'ordering-respected' and not failed and r.get('exc_type') == 'TimeoutError':
+                # Loki's own wall-clock limit for a queued task fired with no failing compile and no ordering
+                # violation: a loaded machine, not a verdict
+                return f"{name}: build task timed out (TimeoutError of loki's wait_and_check; wall-clock, not a verdict)"
             add(f'build:parallel-build-failed:{cause}',
                 f"{name}: {r.get('exc_type')} {r.get('exc_msg', '')[:300]}; failing compiles: {failed}", **info)
             return None
